@@ -705,8 +705,7 @@ class Trace:
         self.unexpected = []
         self.current = None
         self.inflight = None       # primitive in flight when the log stops: "exec" | "commit" | None
-        self.block_open = False
-        self.block_calls = []
+        self.block_stack = []      # one list of acknowledged-but-deferred call ids per open `with db:` level
         self.confirmed = set()     # ids of the calls whose record the property demands after the kill
 
     def new_phase(self):
@@ -731,10 +730,13 @@ class Trace:
             elif self.items[idx][1] == "exit":
                 self.labels.append("ex")      # its commit happened; what remained of __exit__ was in-memory only
         self.items.append(("kill", None))
-        self.block_open = False
-        self.block_calls = []
+        self.block_stack = []
         self.current = None
         self.pending_blk = None
+
+    @property
+    def block_open(self):
+        return bool(self.block_stack)
 
     def _lab(self, lab, cid=None):
         self.labels.append(lab)
@@ -810,7 +812,7 @@ class Trace:
                 if not self.block_open:
                     self.confirmed.add(cid)          # returned outside any `with db:` block
                 else:
-                    self.block_calls.append(cid)
+                    self.block_stack[-1].append(cid)
             elif t == "R":
                 cid = int(w[1])
                 self.calls[cid]["status"] = "raised"
@@ -824,17 +826,19 @@ class Trace:
                 what = w[1]
                 self.pending_blk = None
                 if what == "en":
-                    self.block_open = True
-                    self.block_calls = []
+                    self.block_stack.append([])
+                    self.max_depth = max(getattr(self, "max_depth", 0), len(self.block_stack))
                     self.labels.append("en")
                 elif what == "ex":
-                    self.block_open = False
-                    self.confirmed.update(self.block_calls)     # the block's normal exit returned
-                    self.block_calls = []
+                    done = self.block_stack.pop() if self.block_stack else []
+                    if self.block_stack:
+                        self.block_stack[-1].extend(done)       # still inside an enclosing batch
+                    else:
+                        self.confirmed.update(done)             # the outermost batch has been left normally
                     self.labels.append("ex")
                 elif what == "xx":
-                    self.block_open = False
-                    self.block_calls = []
+                    if self.block_stack:
+                        self.block_stack.pop()                  # left by an exception: nothing of this level is demanded
                     self.labels.append("xx")
             elif t == "N":
                 self.cur_op = int(w[1])
@@ -1472,14 +1476,14 @@ def gen_identity_ops(rng, n_ops, big=False, blocks=True):
     depth = 0
     for _ in range(n_ops):
         c = rng.random()
-        if blocks and depth == 0 and c < 0.10:
-            ops.append({"op": "enter"})
-            depth = 1
+        if blocks and ((depth == 0 and c < 0.10) or (0 < depth < 3 and c < 0.12)):
+            ops.append({"op": "enter"})          # batches nest (a helper that opens its own `with db:`); inner ones
+            depth += 1                           # are often empty or read-only because exit follows with p = 0.25
             continue
-        if depth and c < 0.25:
+        if depth and c < 0.37:
             e = rng.random()
-            ops.append({"op": "exit"} if e < 0.6 else {"op": "exitexc", "ignore": e < 0.8})
-            depth = 0
+            ops.append({"op": "exit"} if e < 0.7 else {"op": "exitexc", "ignore": e < 0.85})
+            depth -= 1
             continue
         if blocks and c > 0.96:
             ops.append({"op": "commit"})
@@ -1497,8 +1501,9 @@ def gen_identity_ops(rng, n_ops, big=False, blocks=True):
         else:
             ops.append({"op": "att", "pk": _hx(rng.choice(pks)), "ak": _hx(rb(rng, 74)), "mp": _hx(rng.choice(mps)),
                         "sig": _hx(rb(rng, 64))})
-    if depth:
+    while depth:
         ops.append({"op": "exit"})
+        depth -= 1
     return ops, [_hx(p) for p in pks]
 
 
@@ -1657,6 +1662,11 @@ def scripted(rng):
               {"op": "enter"}, att(pk, mp), {"op": "exitexc", "ignore": True}, md(pk2, tp),
               {"op": "enter"}, tok(pk2, prev, ch, None), {"op": "exitexc", "ignore": False}, {"op": "commit"},
               att(pk2, mp)]
+    nested = [{"op": "enter"}, tok(pk, prev, cha, b"a"), {"op": "enter"}, {"op": "exit"},        # inner batch: nothing
+              md(pk, tp), {"op": "exit"},
+              {"op": "enter"}, {"op": "enter"}, att(pk, mp), {"op": "exit"}, tok(pk2, prev, ch2, bigc), {"op": "exit"},
+              {"op": "enter"}, md(pk2, tp), {"op": "enter"}, {"op": "enter"}, {"op": "exit"},
+              {"op": "exitexc", "ignore": True}, {"op": "exit"}, att(pk2, mp)]
     h1, h2 = rb(rng, 32), rb(rng, 32)
 
     def watt(h, n):
@@ -1667,6 +1677,7 @@ def scripted(rng):
         Experiment("identity", [ident], None, "scripted-identity", pks=[_hx(pk), _hx(pk2)]),
         Experiment("identity", [ident[:3], ident[3:]], None, "scripted-identity-2phase", pks=[_hx(pk), _hx(pk2)]),
         Experiment("identity", [blocks], None, "scripted-blocks", pks=[_hx(pk), _hx(pk2)]),
+        Experiment("identity", [nested], None, "scripted-nested-blocks", pks=[_hx(pk), _hx(pk2)]),
         Experiment("wallet", [wallet], None, "scripted-wallet", hashes=[_hx(h1), _hx(h2)]),
         Experiment("wallet", [wallet[:2] + [{"op": "close"}], wallet[2:]], None, "scripted-wallet-2phase",
                    hashes=[_hx(h1), _hx(h2)]),
@@ -1684,9 +1695,9 @@ def split_phases(rng, ops, max_parts=2):
         if i > 0 and depth == 0:
             cuts.append(i)
         if o["op"] == "enter":
-            depth = 1
+            depth += 1
         elif o["op"] in ("exit", "exitexc"):
-            depth = 0
+            depth -= 1
     if not cuts:
         return [ops]
     n = min(len(cuts), rng.randrange(1, max_parts))
@@ -1793,6 +1804,7 @@ class Runner:
                 ctx.count("call_raised:" + c.get("exc", "?"))
         for lab in tr.labels:
             ctx.count("label:" + lab)
+        ctx.count("block_depth:%d" % getattr(tr, "max_depth", 0))
         created = bool(r["dump"].get("tables"))
         if mode != "none" and tr.opened and len(tr.order) >= 3:
             ctx.sample({"input": exp.to_replay() if sum(len(p_) for p_ in exp.ops_phases) <= 8 else
@@ -1859,7 +1871,7 @@ def run(ctx):
                 fsize_runs(runner, exp, probe, rng, ctx.scale(12, 150))
         ctx.extra["t_scripted_s"] = round(ctx.elapsed(), 1)
         # generated workloads
-        n_gen = ctx.scale(44, 360)
+        n_gen = ctx.scale(36, 360)
         for i in range(n_gen):
             kind = rng.choice(["identity", "identity", "wallet", "manager"])
             n_ops = rng.choice([3, 6, 10, 16, 24])
